@@ -30,7 +30,15 @@ type Spec struct {
 	// NoSettle: do not let a session that is shutting down run to its end
 	// (connection polls) after each event; timed checks measure that themselves.
 	NoSettle bool
+	// Depth, if not zero, replaces the depth bound of the check for this spec.
+	Depth int
+	// Livelock: a session that keeps running without letting (virtual) time pass - a zero-delay loop - is a
+	// violation of this spec's property (termination and robustness properties) instead of a harness error.
+	Livelock bool
 }
+
+// StepLimit is the scheduler's message for an execution that never quiesces.
+const StepLimit = "step limit exceeded (livelock?)"
 
 // RunHistory replays setup + hist on a fresh handler under the default schedule.
 func RunHistory(t *testing.T, sp Spec, hist []string) explore.StateResult {
@@ -82,6 +90,11 @@ func RunHistory(t *testing.T, sp Spec, hist []string) explore.StateResult {
 	if res.HarnessErr != "" && out.HarnessErr == "" {
 		out.HarnessErr = res.HarnessErr
 	}
+	if sp.Livelock && out.HarnessErr == StepLimit {
+		out.HarnessErr = ""
+		out.Violations = []explore.Violation{{Sig: "livelock:session-spins-without-letting-time-pass", Detail: "after the last event the session's goroutines kept running (more than the step limit of scheduling steps) at one instant of virtual time: a zero-delay loop"}}
+		out.Key, out.Class, out.Next = "livelock:"+strings.Join(hist, ","), "livelock", nil
+	}
 	_ = leakedBubble
 	for i := range out.Violations {
 		v := &out.Violations[i]
@@ -126,7 +139,11 @@ func BFSCheck(rep *explore.Report, specs []Spec, o BFSOpts, deadlineQuick, deadl
 	classes := map[string]int{}
 	var samples []any
 	for _, sp := range specs {
-		st, viols := explore.BFSBatch(explore.BFSConfig{MaxDepth: o.Depth, MaxStates: o.MaxStates, Workers: pool.N, ValidateEvery: 8,
+		d := o.Depth
+		if sp.Depth != 0 {
+			d = sp.Depth
+		}
+		st, viols := explore.BFSBatch(explore.BFSConfig{MaxDepth: d, MaxStates: o.MaxStates, Workers: pool.N, ValidateEvery: 8,
 			Deadline: rep.Budget(secs(deadlineQuick), secs(deadlineThorough))}, pool.BFSRunner(sp.Name))
 		if st.HarnessErr != "" {
 			rep.HarnessErr = sp.Name + ": " + st.HarnessErr
